@@ -186,6 +186,10 @@ def sources(draw, nfilt, k=None, logmodels=None, min_fit=2, flags=None, distance
             'flag_dtype': draw(FLAG_DTYPES)}
 
 
+# units the wavelength axis of a cube may be typed in (only set by checks that look at wavelengths as lengths)
+CUBE_WAV_UNITS = {'um': ('um', 1.), 'nm': ('nm', 1e3), 'mm': ('mm', 1e-3), 'AA': ('Angstrom', 1e4)}
+
+
 def reversed_case(case):
     """the same package fitted with its filters listed in reverse order (for a second Fitter kept alive beside the first)"""
     c = dict(case)
@@ -390,8 +394,9 @@ def build_package_2d(model_dir, case):
         wav = [tabulated_wav(filters[j]) for j in order]
         val = [[[flux[m][j] * vfac for j in order]] for m in range(len(names))]
         unc = [[[0.1 * flux[m][j] * vfac for j in order]] for m in range(len(names))]
-        pkgio.write_cube(os.path.join(model_dir, 'flux.fits'), names, wav, None, val, unc, valid=cube_valid_flags(case),
-                         val_unit=vunit)
+        cwu, cwf = CUBE_WAV_UNITS[case.get('cube_wav_unit', 'um')]
+        pkgio.write_cube(os.path.join(model_dir, 'flux.fits'), names, [w * cwf for w in wav], None, val, unc,
+                         valid=cube_valid_flags(case), val_unit=vunit, wav_unit=cwu)
 
 
 def named_filter(case, j):
@@ -633,8 +638,9 @@ def build_package_3d(model_dir, case):
         unc = [[[0.05 * v for v in row] for row in mod] for mod in val]
         unit = case.get('ap_unit', 'AU')
         aps = [grid['apertures'][a] * AP_UNIT_FACTOR[unit] for a in aidx]
-        pkgio.write_cube(os.path.join(model_dir, 'flux.fits'), names, wav, aps, val, unc, ap_unit=unit,
-                         valid=cube_valid_flags(case), val_unit=vunit)
+        cwu, cwf = CUBE_WAV_UNITS[case.get('cube_wav_unit', 'um')]
+        pkgio.write_cube(os.path.join(model_dir, 'flux.fits'), names, [w * cwf for w in wav], aps, val, unc, ap_unit=unit,
+                         valid=cube_valid_flags(case), val_unit=vunit, wav_unit=cwu)
 
 
 def distance_range_quantity(setup):
